@@ -97,8 +97,9 @@ Proof.
   - rewrite IHj. destruct (it_next spn run Emit j ctx its s) as [[r js'] s']. destruct r; reflexivity.
   - rewrite IHj. destruct (it_next spn run Emit j ctx its s) as [[r js'] s']. destruct r; reflexivity.
   - destruct its; try reflexivity. destruct b; [reflexivity|]. rewrite H. run_emit; reflexivity.
-  - destruct its; try reflexivity. rewrite rep_next_mi.
-    destruct (rep_next run Emit a lo0 hi0 ctx n s) as [[r c'] s']. reflexivity.
+  - destruct its; try reflexivity.
+    + rewrite rep_next_mi. destruct (rep_next run Emit a lo0 hi0 ctx n s) as [[r c'] s']. reflexivity.
+    + rewrite H. run_emit; reflexivity.
 Qed.
 
 (* the driver: same outcome class, same "ended" flag, same number of items, same final state *)
@@ -379,6 +380,7 @@ Proof.
   - (* Pratt *) apply (proj1 (pratt_mi (go n) IH g ops ctx n)).
   - (* GroupArr *) apply group_loop_mi; exact IH.
   - (* NestedIn *) rewrite HQ. reflexivity.
+  - (* Skip *) reflexivity.
   - (* ExtWrap *) crush IH.
 Qed.
 
